@@ -248,6 +248,16 @@ func cmdCheck(args []string) int {
 		if o.Opts["panics"] == "ok" {
 			cfg.PanicIsViolation = false
 		}
+		cfg.StopAtFirstViolation = o.Opts["all_violations"] != "1"
+		oid := o.ID
+		cfg.IsKnown = func(v sx.Violation) bool {
+			for _, k := range known {
+				if k.Property == prop && matchKnown(k, oid, v) {
+					return true
+				}
+			}
+			return false
+		}
 		if *logSMT {
 			cfg.LogDir = filepath.Join(outDir, "smt")
 		}
